@@ -17,6 +17,16 @@ def _lattice_case(seed, mode='explicit'):
     import earleylib, oracle_derivs, forestlib
     rng = random.Random(seed)
     g = earleylib.gen_cfg(rng, regex_terms=True, max_nts=3, aliases=False)
+    if rng.random() < 0.4:
+        # a terminal that may end in (or contain) the ignored blank: the same item then reaches a column both through a token that swallowed the blank and
+        # through the carry-over of the %ignore match, with different derivations below it (their families meet in one forest node)
+        lines = [l for l in g.split('\n') if l and not l.startswith(('WS', '%ignore'))]
+        tl = [i for i, l in enumerate(lines) if l.startswith('T')]
+        i = rng.choice(tl)
+        lines[i] = lines[i].split(':')[0] + ': ' + rng.choice(['/a ?/', '/b ?/', '/ab |b/', '/a+ */', '/c ?/', '/a( b)?/', '/ ?b/', '/[ab]+ ?/'])
+        if rng.random() < 0.3:
+            lines[0] = rng.choice(['start: n9 T0 T%d' % (len(tl) - 1), 'start: T0 T%d | n9 T0' % (len(tl) - 1), 'start: (T0 | n9)+']); lines.insert(1, 'n9: T%d |' % (len(tl) - 1))
+        g = '\n'.join(lines) + '\nWS0: " "\n%ignore WS0\n'
     out = {'grammar': g, 'runs': []}
     try:
         with guarded(6):
